@@ -934,3 +934,22 @@ Proof.
     exists A, B. split; [exact E1|]. now rewrite E2.
   - split; [reflexivity|]. split; [reflexivity|]. intros tj Hj. rewrite get_put_other by congruence. reflexivity.
 Qed.
+
+(* -- del tree[key] and rename are the operations they are documented to be -- *)
+Theorem del_effect w ti key r w' :
+  op_del w ti key = (Ok r, w') ->
+  exists t n, get_tree w ti = Some t /\ getitem t key = Some [n] /\ op_remove w ti n false false = (Ok r, w').
+Proof.
+  unfold op_del. intros H. destruct (get_tree w ti) as [t|] eqn:Et; [|discriminate].
+  destruct (getitem t key) as [[|n [|? ?]]|] eqn:Eg; try discriminate. exists t, n. auto.
+Qed.
+
+Theorem rename_effect w ti n d r w' :
+  op_rename w ti n d = (Ok r, w') ->
+  exists t s, get_tree w ti = Some t /\ get_node n (forest_of t) = Some s /\ i_isstr (rinfo s) = true /\
+              op_set_data w ti n (Some d) None None = (Ok r, w').
+Proof.
+  unfold op_rename. intros H. destruct (get_tree w ti) as [t|] eqn:Et; [|discriminate].
+  destruct (get_node n (forest_of t)) as [s|] eqn:Es; [|discriminate].
+  destruct (i_isstr (rinfo s)) eqn:E; [|discriminate]. exists t, s. auto.
+Qed.
